@@ -45,7 +45,7 @@ ASSUMPTIONS = [
     "for accepted foreign payloads one decode-encode pass must reach a fixed point that decodes to the same value",
 ]
 MUST_REACH = {"serializer_keys_covered": 180, "int_raw_checks": 100000, "byte_payload_checks": 1000,
-              "fuzz_accepted": 50, "literal_checks": 10000, "literal_checks_through_library_printer": 5000, "refused_encodes_before_good_ones": 60, "template_reloads_provoked": 3, "values_encoded_after_template_reload": 20, "block_api_checks": 500, "block_member_assignments": 50, "block_pretty_assignments": 100, "block_values_scribbled": 40, "tz_covered": 3,
+              "fuzz_accepted": 50, "literal_checks": 10000, "literal_checks_through_library_printer": 5000, "refused_encodes_before_good_ones": 60, "template_reloads_provoked": 3, "calls_from_concurrent_threads": 300, "values_encoded_after_template_reload": 20, "block_api_checks": 500, "block_member_assignments": 50, "block_pretty_assignments": 100, "block_values_scribbled": 40, "tz_covered": 3,
               "negative_raws_on_signed_flag_fields": 10, "context_values": 20}
 
 
@@ -587,6 +587,24 @@ def check_bytes_key(ctx, rng, key, ser, var):
 _HELD = []
 
 
+def threads_phase(ctx):
+    """The registered field serializers are process-wide objects: the same decode / encode calls from several threads at once."""
+    from ..threads import run_concurrently
+    jobs = []
+    for (key, label, block, vname, p, v) in _HELD[:40]:
+        ser = se.SUBFIELD_SERIALIZERS.get(key)
+        if ser is None:
+            continue
+        try:
+            d = gen_spec.canon(ser.deserialize(block, p, pod=True))
+            e = bytes(ser.serialize(block, ser.deserialize(block, p, pod=False)))
+        except Exception:
+            continue
+        jobs.append((lambda ser=ser, block=block, p=p: gen_spec.canon(ser.deserialize(block, p, pod=True)), d))
+        jobs.append((lambda ser=ser, block=block, p=p: bytes(ser.serialize(block, ser.deserialize(block, p, pod=False))), e))
+    run_concurrently(ctx, "field-serializers", jobs, reps=ctx.pick(3, 20))
+
+
 def encode_after_template_reload(ctx):
     """The library reloads its templates module when the file changed on disk (development aid, checked whenever a Message is
     built).  A value that was decoded before such a reload is still a value: written back through the Block API afterwards it
@@ -708,6 +726,7 @@ def run(ctx):
         if len(ctx.samples) < 3:
             ctx.sample({"key": list(key), "serializer": name, "wire_type": var.type.name, "tz": tz})
     ctx.flag("stale_registrations", stale)
+    threads_phase(ctx)
     encode_after_template_reload(ctx)
 
 
